@@ -211,3 +211,14 @@ Proof. intros HW Hsc Hn Hr Ht Hj st s0 s1 cost0 cost1.
   pose proof (M j ltac:(lia)) as Mj. pose proof (M (j + 8)%nat ltac:(lia)) as Mj8.
   rewrite MAX_METRIC_val in Mj, Mj8. repeat split; lia.
 Qed.
+
+(** * the float rounding of the cost: margins that make [round_div] the value of std::round(min_cost / float(L))
+    (i) the exact quotient m/L is never within 1/(2L) of a half-integer k + 1/2 (L is odd), and
+    (ii) m < 2^23, so int32 -> float is exact and one correctly rounded float division moves the quotient by at most
+         (m/L) 2^-24 < 1/(2L).  (The IEEE operations themselves are not modelled; see docs/notes/C02.md.) *)
+Lemma cost_rounding_margin m L k : 0 <= m <= 77592 -> 1 <= L <= 31 -> Z.odd L = true ->
+  1 <= Z.abs (2 * m - (2 * k + 1) * L) /\ 2 * m < 2 ^ 24.
+Proof. intros Hm HL Ho. split; [|lia].
+  rewrite Z.odd_spec in Ho. destruct Ho as [q ->].
+  replace ((2 * k + 1) * (2 * q + 1)) with (2 * (2 * k * q + k + q) + 1) by ring.
+  set (p := 2 * k * q + k + q). lia. Qed.
